@@ -7,6 +7,39 @@ ROOT = Path(__file__).resolve().parent.parent
 
 # id -> (level text, level note, technique, design_ref)
 CLAIMED = {
+    "C09": ("Lean 4 + Mathlib real analysis. For all inputs: the truncated wrapper integrates over the intersection and its density vanishes "
+            "outside; the coded split-at-zero / one-sided pattern is additive over adjacent intervals and obeys the sign rules under monotone "
+            "tails; integral_xn_exp_minus_x as coded equals the integral of x^n exp(-alpha*abs x) for every n, alpha > 0, a <= b and half-lines "
+            "(HasDerivAt + fundamental theorem of calculus; the pre-fix polynomial is refuted); the HEM mass / x / x^2 closed forms and the "
+            "variance-gamma x^n (n >= 1) equal the integrals of the models' own densities; Merton mass / x / x^2 and VG mass hold modulo "
+            "explicit derivative hypotheses on erf / E1 (theorem parameters, shown satisfiable, never axioms). Correspondence: exact-term "
+            "comparison (rational coefficients and exponents of the exponential closed forms) and 30-digit mpmath quadrature of every "
+            "family, route, n <= 6 and interval shape.",
+            "Partial: CGMY (incomplete gamma), Merton/VG mass with infinite ends and the scipy quad fallbacks are compared only; the erf/E1 "
+            "hypotheses are probed numerically on scipy's functions; two recorded CGMY findings.",
+            "Lean 4 proof (HasDerivAt + FTC, improper integrals) + differential correspondence + high-precision quadrature oracle",
+            "DESIGN.md §4 C09"),
+    "C11": ("Lean 4 theorems: the Clayton formula over an abstract generator pair and over Real.rpow for every theta > 0, eta in [0,1] is "
+            "grounded (any d), has identity margins (d = 2, 3) and is 2-increasing on every rectangle of the extended plane without a "
+            "doubly-infinite corner (d = 2, convexity of the negative power proved); the executable theta = 1 / independent / completely "
+            "dependent models (with IEEE inf/NaN semantics) likewise; the stated conditional inverse inverts the conditional distribution. "
+            "Correspondence: exact (theta = 1, independent, dependent: F, volume, margin, conditional distribution, mixed derivative) plus "
+            "property oracles for general theta against mpmath.",
+            "d = 3 increasingness, the dependent copula with infinite ends, the mixed derivative and monotonicity/limits of the conditional "
+            "distribution are oracle-checked only; four recorded findings (eta in {0,1} NaN, independent copula at all-infinite corners).",
+            "Lean 4 proof (quadrant splitting, reflection, convexity) + differential correspondence + oracle",
+            "DESIGN.md §4 C11"),
+    "C12": ("Lean 4 theorems over an abstract tail-integral family and any linearly ordered coordinate type: the fast 2-d / 3-d formulas equal "
+            "the general recursion for every sign pattern not containing the origin (8 / 26 patterns), the mass is additive under axis "
+            "splits away from 0 (with the exact defect formula for a split at 0), other coordinates over the whole line give the marginal "
+            "mass (d = 2, 3), sub-families agree with the I-margins, and d = 2 non-negativity follows from the 2-increasing hypothesis of "
+            "C11. Correspondence: the model fed with the implementation's own tail integrals, and exactly with TableMeasure margins plus "
+            "theta = 1 Clayton / independent / dependent copulas; oracles for additivity, margins, non-negativity, density quadrature, "
+            "inverse tail integral.",
+            "d = 3 non-negativity, the density integral and the inverse-tail root search are oracle-checked; five recorded findings (zero end "
+            "points, origin box, CGMY tail at 0, independent all-infinite corner).",
+            "Lean 4 proof (case analysis over sign patterns + ring) + differential correspondence + oracle",
+            "DESIGN.md §4 C12"),
     "C13": ("Lean 4 theorems about a hand-written model of CTMCGrid.refine and the closed-form constructors "
             "(refine^k: old states at 2^k*i, inserted point = the grid's own cell boundary strictly inside the gap, strict "
             "monotonicity, length, h/2^k, origin*2^k, truncation bounds unchanged, -h/0/+h around the origin, shared-axis "
